@@ -632,7 +632,7 @@ Proof.
   { destruct (negb _); [destruct (_ =? _)|]; exact I. }
   intros [loops' nr'] _.
   destruct (U32 <=? total); [simpl; auto|].
-  destruct (check_array _ _ _); exact I.
+  destruct (if fix_perm_check then _ else _); exact I.
 Qed.
 
 Lemma process_indexes_spec lv count istr total : Inv3 lv count -> iok istr ->
